@@ -208,7 +208,8 @@ def sampler_cases(draw, kind):
             "via": draw(st.sampled_from(["sample", "sample_batch"])),
             "reseed_from": draw(st.one_of(st.none(), st.integers(0, 1000))),
             # before some batches, a call that the sampler rejects (zero-parameter space)
-            "bad_call_before": draw(st.one_of(st.just([]), st.just([]), st.lists(st.integers(0, 4), max_size=2, unique=True)))}
+            "bad_call_before": draw(st.one_of(st.just([]), st.just([]), st.lists(st.integers(0, 4), max_size=2, unique=True))),
+            "pre_use_dim": draw(st.sampled_from([None, None, None, d + 1, d + 3, max(1, d - 1)]))}
 
 
 def bitrev(k):
@@ -231,6 +232,10 @@ def draw_points(kind, case, sizes, reseed=False):
         s.random_state = case["seed"]
     else:
         s = cls(batch_size=sizes[0], random_state=case["seed"])
+    if case.get("pre_use_dim"):
+        # an earlier batch drawn from the same object on a space with another number of parameters
+        dp = case["pre_use_dim"]
+        s.sample_batch(2, space(dp), np.zeros((0, dp)), np.zeros(0))
     hist = np.zeros((0, case["d"]))
     outs = []
     for bi, b in enumerate(sizes):
@@ -288,8 +293,9 @@ def check_sampler(ctx: Ctx, case):
             ctx.fail("C13/halton-offgrid", "coordinate 0 is not a multiple of the grid step", sub, case)
             return
         idx = [bitrev(int(k)) for k in ks]
-        if not (21 <= idx[0] <= 2**16):
-            ctx.fail("C13/halton-start", f"first index {idx[0]} = s + 1 with s outside [20, 2^16)", sub, case)
+        pre = 2 if case.get("pre_use_dim") else 0     # points already drawn from this object on another space
+        if not (21 + pre <= idx[0] <= 2**16 + pre):
+            ctx.fail("C13/halton-start", f"first index {idx[0]} = s + 1 + {pre} with s outside [20, 2^16)", sub, case)
             return
         for k in range(1, len(idx)):
             if idx[k] != idx[0] + k:
